@@ -501,7 +501,27 @@ def run_driver(case):
                 rec = {"state": copy.deepcopy(context.rng.bit_generator.state), "pos": context.atoms.positions.copy(),
                        "cell": context.atoms.cell.array.copy(), "numbers": context.atoms.numbers.copy(),
                        "ke": float(context.atoms.get_kinetic_energy()), "delta": getattr(context, "particle_delta", 0)}
-                rec["verdict"] = bool(base.evaluate(self, context)) if not isinstance(base.__dict__.get("evaluate"), staticmethod) else bool(base.evaluate(context))
+                is_static = isinstance(base.__dict__.get("evaluate"), staticmethod)
+                # the rule quantifies over every uniform number: measure ln A of this very trial by bisection on a
+                # scripted uniform (the simulation's generator is put back untouched before the real decision)
+                outer = self
+
+                class _Plain:
+                    def evaluate(self, ctx):
+                        return base.evaluate(ctx) if is_static else base.evaluate(outer, ctx)
+
+                real_rng = context.rng
+                stub = StubRng(0.5)
+                try:
+                    context.rng = stub
+                    try:
+                        rec["measured"] = measure_logA(_Plain(), context, stub, iters=60)
+                        rec["measured_ok"] = True
+                    finally:
+                        context.rng = real_rng
+                except AttributeError:
+                    rec["measured_ok"] = False
+                rec["verdict"] = bool(base.evaluate(context)) if is_static else bool(base.evaluate(self, context))
                 log.append(rec)
                 return rec["verdict"]
         Spy.__name__ = "Spy" + base.__name__
@@ -631,7 +651,22 @@ def run_driver(case):
         # keep the harness' particle-count model in step with accepted exchanges
         if "GrandCanonical" in crit_name and hist:
             model["number_of_exchange_particles"] += rec["delta"]
-        if abs(logu - logA) <= 2e-6 + 1e-10 * max(1.0, abs(logA), abs(dE) / kT):
+        band = 2e-6 + 1e-10 * max(1.0, abs(logA), abs(dE) / kT)
+        if rec.get("measured_ok"):
+            labels.append("lnA-measured")
+            m = rec.get("measured")
+            bad = None
+            if m is None:
+                if -740.0 < logA < -band:
+                    bad = f"the criteria accepts every uniform number (or none) although the rule gives ln A={logA!r}"
+            elif not (abs(m - logA) <= band + 1e-9 * abs(logA)) and not (logA >= 0 and m > -band) and logA > -744.0:
+                bad = f"ln A measured by bisection on the uniform number is {m!r}, the rule gives {logA!r}"
+            if bad:
+                return {"labels": labels, "nontrivial": True, "keys": keys or [f"{driver}|viol"],
+                        "violation": {"kind": f"driver:lnA:{crit_name.replace('Spy', '')}",
+                                      "detail": f"after setters {setters_seen}: {bad} (model params "
+                                                f"{ {k: (v if not isinstance(v, np.ndarray) else v.tolist()) for k, v in model.items()} })"}}
+        if abs(logu - logA) <= band:
             labels.append("boundary")
             continue
         expected = logu < min(0.0, logA)
@@ -660,7 +695,7 @@ def plan(tier):
         return [
             {"part": "decision", "shards": 8, "budget": {"n_examples": 3000}},
             {"part": "tension", "shards": 4, "budget": {"n_examples": 150}},
-            {"part": "driver", "shards": 4, "budget": {"n_examples": 120}},
+            {"part": "driver", "shards": 4, "budget": {"n_examples": 500}},
         ]
     return [
         {"part": "decision", "shards": 16, "budget": {"n_examples": 50000}},
